@@ -142,14 +142,3 @@ def level_tests(resid, cell_id, env_of_cell, ntaxa, var_env, var_rep, var_err):
             yield ("environment", j, float((em[:, j] ** 2 / ve).sum()), nenv, 1.0, float(numpy.abs(em[:, j]).max()))
         else:
             yield ("environment", j, float((em[:, j] ** 2).sum()), nenv, 0.0, float(numpy.abs(em[:, j]).max()))
-
-
-def expected_distinct(nrec, ncell, nenv, var_env, var_rep, var_err):
-    """Number of distinct residual values implied by independent continuous effects."""
-    if var_err > 0:
-        return nrec
-    if var_rep > 0:
-        return ncell
-    if var_env > 0:
-        return nenv
-    return 1
